@@ -43,7 +43,9 @@ def run(run):
                                      {"ParCons(1,Copeland)": [("comp3plus1", 6)], "ParCons": [("cycles3", 3)],
                                       "ExactPulp": [("cycles3", 3)], "ExactCplex(noopt)": [("cycles3", 3)]}),
                              strata_heavy=({"ParCons(1,BioConsert)": [("comp3plus1", 4)]} if run.thorough else {}))
+    items += sweep.history_items(run, [c for c in cfgs if c not in sweep.HEAVY or run.thorough], ["wellformed"], 4 if run.thorough else 2)
     run.pmap("sweep.run_item", sweep.run_item, sweep.order_items(items), chunksize=1)
+    run.part("validate_engine_f", lambda: sweep.validate_engine_f(run, 40 if run.thorough else 14))
     run.extra["work_items"] = len(items)
     run.extra["stubs"] = sweep.install()
 
